@@ -377,14 +377,16 @@ class Run:
         with open(os.path.join(EVID, f"{self.pid}.json"), "w") as f:
             json.dump(ev, f, indent=1, default=_jsonable)
         self.log(f"obligations={n} discharged={proved} undecided={len(undec)} known={len(knownf)} refuted={len(refuted)} bounded={len(self.bounded)} wall={wall:.1f}s level={level}")
-        if self.checker_failures:
-            for c in self.checker_failures:
-                print(f"CHECKER-FAILURE: {c}", file=sys.stderr)
-            return 3
+        for c in self.checker_failures:
+            print(f"CHECKER-FAILURE: {c}", file=sys.stderr)
         if self.violations:
+            # a violation stands on its own evidence (a refuted obligation with its replay); a part of the checker that
+            # failed next to it (often because the changed code crashes or hangs a native job) does not retract it
             for name, path, no_input in self.violations:
                 print(f"VIOLATION property={self.pid} replay={path}" + (" no-failing-input-found" if no_input else ""))
             return 1
+        if self.checker_failures:
+            return 3
         return 0
 
 
